@@ -4,21 +4,47 @@ import Rtp.Pred.C16
 namespace Rtp.Kinds.C16
 open Rtp Rtp.Proto Rtp.Pred
 
-/-- `c16.split <mtu> <obytes> => PayObs`  (the harness runs G711 and G722 under two kinds) -/
+/-- C16's sentence about G711/G722 with nothing added: no panic, the fragments concatenate to
+    exactly the input, every fragment except the last is exactly `mtu` bytes long.  Ownership of the
+    fragments and "the last fragment is at most MTU" (`Pred.C16.split` also asks for them) are
+    C08's text, not C16's; they are still compared with the model (correspondence). -/
+def splitR (mtu : UInt16) (input : Bytes) (o : PayObs) : Bool :=
+  !o.panicked && o.frags.flatten == input && o.frags.dropLast.all (fun f => f.length == mtu.toNat)
+
+theorem splitR_of_split (mtu : UInt16) (input : Bytes) (o : PayObs) :
+    Rtp.Pred.C16.split mtu input o = true → splitR mtu input o = true := by
+  intro h
+  simp only [Rtp.Pred.C16.split, PayObs.owned, Bool.and_eq_true] at h
+  simp only [splitR, Bool.and_eq_true]
+  exact ⟨⟨h.1.1.1.1.1.1.1, h.1.1.2⟩, h.1.2⟩
+
+/-- a nil input is a byte string of length 0: what is accepted for `[]byte{}` is accepted for it,
+    and so is "no fragment at all" (there is nothing to carry) -/
+def splitPredR (m : UInt16) (b : Option Bytes) (o : PayObs) : Bool :=
+  match b with
+  | none => !o.panicked && (o.frags.isEmpty || splitR m [] o)
+  | some p => if m == 0 then !o.panicked else splitR m p o
+
+/-- `c16.split <mtu> <obytes> => PayObs`  (the harness runs G711 and G722 under two kinds).
+    `wf`: "MTU >= 1"; nil and empty inputs are inputs of length 0. -/
 def split : Handler :=
   mkHandler (do let m ← Rd.u16; let b ← Rd.obytes; pure (m, b)) rdPayObs
     (fun (m, b) => PayObs.ofFrags (Model.g711Payload m b))
-    (fun (m, b) o => match b with
-      | none => !o.panicked && o.frags.isEmpty
-      | some p => if m == 0 then !o.panicked else Rtp.Pred.C16.split m p o)
-    (fun (m, b) => m != 0 && b.isSome)
+    (fun (m, b) o => splitPredR m b o)
+    (fun (m, _) => m != 0)
+
+/-- Opus: one fragment equal to (and not aliasing) the input — the ownership probes are C16's own
+    text here.  For a nil input "one fragment equal to the input" is one empty fragment; no
+    fragment at all is accepted as well. -/
+def opusPredR (b : Option Bytes) (o : PayObs) : Bool :=
+  match b with
+  | none => (!o.panicked && o.frags.isEmpty) || Rtp.Pred.C16.opusPay [] o
+  | some p => Rtp.Pred.C16.opusPay p o
 
 def opusPay : Handler :=
   mkHandler (do let m ← Rd.u16; let b ← Rd.obytes; pure (m, b)) rdPayObs
     (fun (m, b) => PayObs.ofFrags (Model.opusPayload m b))
-    (fun (_, b) o => match b with
-      | none => !o.panicked && o.frags.isEmpty
-      | some p => Rtp.Pred.C16.opusPay p o)
+    (fun (_, b) o => opusPredR b o)
 
 def rdOpusDe : Rd Rtp.Pred.C16.OpusDeObs := do
   let r ← Rd.resC Rd.bytes
